@@ -39,6 +39,8 @@ def structures(tier):
         for proc in (None, 'name', 'pid', 'other'):
             sts.append({'kind': 'v3logs', 'tid': tidf, 'proc': proc})
     sts.append({'kind': 'v3events', 'nc': 1, 'ns': 1})
+    for edit in ('append-class', 'remove-class', 'append-subclass', 'clear'):
+        sts.append({'kind': 'edit', 'm': 2, 'edit': edit})
     return sts
 
 
@@ -60,7 +62,48 @@ def _same(e, spec):
                e.eventid == spec.eventid, e.func_qualifier == spec.func)
 
 
+def run_edit(ctx, st):
+    """a listing, an in-place edit of the filter lists, a second listing on the same parser: each honours the filter
+    as it stands when the listing is requested"""
+    from pykdebugparser.pykdebugparser import PyKdebugParser
+    m = st['m']
+    records = [ctx.bytes('rec%d' % i, 64) for i in range(m)]
+    ctx.assume(records[0][0] != 0)
+    c0, c1, s0 = ctx.int('c0', 8), ctx.int('c1', 8), ctx.int('s0', 16)
+    p = PyKdebugParser()
+    if ctx.symbolic:
+        p.threads_pids, p.pids_names = SymMap(), SymMap()
+    p.filter_class = [c0]
+    p.filter_subclass = []
+    data = K.v2_file([], 0, records)
+    specs = [K.Rec(r) for r in records]
+    try:
+        first = list(p.kevents(make_stream(data)))
+        if st['edit'] == 'append-class':
+            p.filter_class.append(c1)
+        elif st['edit'] == 'remove-class':
+            p.filter_class.append(c1)
+            list(p.kevents(make_stream(data)))
+            p.filter_class.pop(0)
+        elif st['edit'] == 'append-subclass':
+            p.filter_subclass.append(s0)
+        else:
+            p.filter_class.clear()
+        second = list(p.kevents(make_stream(data)))
+    except Exception as e:      # noqa
+        ctx.check('C12/edit/no-error', False, '%s: %s' % (type(e).__name__, e)); ctx.reach(); return
+    classes, subclasses = list(p.filter_class), list(p.filter_subclass)
+    for tag, out, cl, sc in (('first', first, [c0], []), ('second', second, classes, subclasses)):
+        expected = [i for i in range(m) if bool(_spec_keep(specs[i], None, cl, sc))]
+        ctx.check('C12/edit/%s-listing/count' % tag, len(out) == len(expected), '%d emitted, %d match the filter in force' % (len(out), len(expected)))
+        for j in range(min(len(out), len(expected))):
+            ctx.check('C12/edit/%s-listing/subsequence' % tag, _same(out[j], specs[expected[j]]))
+    ctx.reach()
+
+
 def run(ctx, st):
+    if st['kind'] == 'edit':
+        return run_edit(ctx, st)
     if st['kind'] == 'v2':
         return run_v2(ctx, st)
     return run_v3(ctx, st)
